@@ -215,6 +215,14 @@ def run_schema(ck, m, rng, n_docs, max_depth):
     model_out = m.run_batch([[1] + it["payload"] for it in to_exec])
     for it, mo in zip(to_exec, model_out):
         try:
+            if G.null_directive_condition(schema, it["doc"], it["op"], it["variables"]):
+                ck.count("skipped_out_of_fragment")
+                ck.count("deferred_case_in_directive_condition(skipped)")
+                continue
+        except Exception:  # noqa: BLE001
+            ck.count("skipped_out_of_fragment")
+            continue
+        try:
             r = G.run_impl(schema, it["doc"], it["data"], it["variables"])
         except Exception as e:  # noqa: BLE001
             r = {"kind": "raised", "messages": [repr(e)]}
